@@ -329,6 +329,14 @@ def r19_10(run, model):
                f"an iteration over {table}() that reads the type name: {ok}",
                witness="enum Paint { Color(Color), Clear } / enum Token { Token(string), Eof }: the output declares `type Color interface` and "
                        "`type Color struct`; a variant Point in package Geo and struct Point in Main both become `type Point struct`")
+    # functions and extern type aliases share the same Go package block
+    body = S.norm_ws(run.facts.text(GOC, f.body["sp"]))
+    for table, what in (("funcs", "function"), ("extern_types", "extern type")):
+        ok = re.search(r"\." + table + r"\.(keys|iter)\(\)\.any\(", body) is not None or re.search(r"\." + table + r"\.contains_key\(", body) is not None
+        run.ob("R19.10", f"variant_struct_name|variant name compared with the {what} names", ok, site(GOC, f.node["sp"]),
+               f"a search of {table} for the variant's Go name: {ok}",
+               witness="Main has fn Circle() -> int32, the imported Shapes::Shape has a variant Circle: `type Circle struct` and `func Circle` in one "
+                       "package block; extern type Duration next to enum Span { Duration(int32) }: two `type Duration`")
 
 
 def r19_12(run, model):
